@@ -28,9 +28,9 @@ def main(tier, replay):
     stats = vlib.run_differential(chk, PROP, "c01_geometry", tier, sanitize=True, ctx_prefixes=("cfg", "cfgge"), compare=compare)
     vlib.standard_coverage(chk, stats,
         "real ProjDataInfoCylindricalNoArcCorr built by construct_proj_data_info (ProjDataInfoCTI) and by ProjDataInfo::ProjDataInfoGE for 3 fixed + 60 generated small "
-        "scanners (thorough: 300; N even, 1..9 rings, span 1/odd/even or GE, max_delta incl. the refused values, view mashing = every divisor, odd TOF mashing, 1 in 6 TOF configurations with an even factor), "
-        "ProjDataInfoBlocksOnCylindricalNoArcCorr / ProjDataInfoGenericNoArcCorr (crystal map file) on 18 generated block scanners (thorough: 60; every span / max_delta; "
-        "a construction failure is an oracle failure; view mashing must be refused) + SAFIR, and predefined scanners (6; thorough 12 x 3) with seeded span / GE / max_delta / "
+        "scanners (thorough: 600; N even, 1..9 rings, span 1/odd/even or GE, max_delta incl. the refused values, view mashing = every divisor, odd TOF mashing, 1 in 6 TOF configurations with an even factor), "
+        "ProjDataInfoBlocksOnCylindricalNoArcCorr / ProjDataInfoGenericNoArcCorr (crystal map file) on 18 generated block scanners (thorough: 120; every span / max_delta; "
+        "a construction failure is an oracle failure; view mashing must be refused) + SAFIR, and predefined scanners (6; thorough 12 x 4) with seeded span / GE / max_delta / "
         "view mashing / odd TOF mashing: ALL (view,tang)->detectors, ALL ordered detector pairs (strided for N>128 in quick), ALL ring pairs and ALL (segment,axial) lists, "
         "a seeded sample of full detector-position pairs/bins (pairs<->bin, full lists and counts, spatial lists and counts with ignore_non_spatial_dimensions=true incl. TOF data, "
         "uncompressed inverse on every single-ring-difference segment); HISTORIES on every generated cylindrical configuration (8 steps, thorough 10; on the object or on a clone with the "
